@@ -424,6 +424,8 @@ func (r *RefCount[T]) resolve(ctx context.Context, waitCh, doneCh chan struct{},
 	if waitCh != nil {
 		select {
 		case <-ctx.Done():
+			// the previous resolver call must have returned before we report done
+			<-waitCh
 			return
 		case <-waitCh:
 		}
